@@ -217,6 +217,16 @@ DCancel(slot) ==
     /\ UNCHANGED <<now, queue, nextEpoch, slots, terminated, phase, cmd, runVars, result,
                    synced, fired, sched, termAt>>
 
+(* A scheduling request made through a Scheduler handle from another thread *)
+(* while the simulation may be stepping: the time read, the validation and   *)
+(* the insertion are one atomic step (they happen under the queue lock, as   *)
+(* does Pull), but it can come between any two other steps.                  *)
+XSchedule(target, abs, d, kind, per, slot, prog, outcome) ==
+    /\ LET time == IF abs THEN d ELSE now + d
+       IN  /\ outcome \in SchedOutcomes(time, kind, per)
+           /\ ApplySched(outcome, time, "drv", "ev", target, prog, kind, per, slot)
+    /\ UNCHANGED <<now, cancelled, terminated, phase, cmd, runVars, result, ghostNS>>
+
 -----------------------------------------------------------------------------
 (* Driver: commands that run the executor.  A command begins (Cmd event),  *)
 (* goes through pull / sync / run, and returns (Ret event).                *)
